@@ -454,11 +454,9 @@ def run(ck, m):
                     ck.ob("R2", enclosing_stmt(c), False, f"{fn_q.name}: the reply is cut (`{norm(base)[-60:]}`) before it is parsed: when the read ended for another reason than the expected suffix (timeout, "
                           "unsupported DA1) the cut removes the terminator of the last real reply and the pattern no longer matches", stmt=f"{fn_q.name}: reply parsed as returned by query_terminal")
     # ---- shared with C15.R2: nothing about the terminal is remembered between queries except through the memos enable_queries() invalidates
-    from tiv.report import Scoped
+    from tiv.report import borrow
     import rules.c15 as c15
-    sc15 = Scoped(ck, "R4", lambda c: c.startswith("utils.py::"), rids={"R2"})
-    c15.run(sc15, m)
-    ck.expect(sc15.kept >= 3, f"expected the memo obligations of C15.R2 (got {sc15.kept})")
+    borrow(ck, c15, m, "R4", lambda c: c.startswith("utils.py::"), rids={"R2"}, min_kept=3)
 
 
 MUTANTS = [
